@@ -523,7 +523,13 @@ impl ToBitStream for TrackNonCDDA {
         w.write_bit(self.non_audio)?;
         w.write_bit(self.pre_emphasis)?;
         w.pad(6 + 13 * 8)?;
-        w.write_from::<u8>(self.index_points.len().try_into().unwrap())?;
+        // the count field is 8 bits wide
+        w.write_from::<u8>(
+            self.index_points
+                .len()
+                .try_into()
+                .map_err(|_| CuesheetError::InvalidIndexPoint)?,
+        )?;
         for point in self.index_points.iter() {
             w.build(point)?;
         }
